@@ -230,7 +230,7 @@ def flush (cfg : Cfg) (al : Bool) (st : GState) : Except Unit Plan :=
 def alignToField (cfg : Cfg) (al : Bool) (f : CField) (cur : Option Nat) : Plan × Option Nat :=
   match f.off with
   | some o => if some o ≠ cur then ([.seek o], some o) else ([], cur)
-  | none => (if al then [.align (f.ty.alignment cfg)] else [], cur)
+  | none => if al then ([.align (f.ty.alignment cfg)], none) else ([], cur)
 
 /-- `field_type` after `if isinstance(field_type, EnumMetaType): field_type = field_type.type` -/
 def fieldType : Ty → Ty
